@@ -7,6 +7,7 @@ use sophia_inmem::dataset::{FastDataset, LightDataset};
 use sophia_inmem::graph::{FastGraph, LightGraph};
 use sophia_inmem::index::{SimpleTermIndex, TermIndex};
 use verif_harness::*;
+use sophia_api::term::GraphName;
 
 type S6 = SimpleTermIndex<SmallIdx<6>>;
 type G9 = sophia_inmem::graph::GenericFastGraph<SimpleTermIndex<SmallIdx<9>>>;
@@ -14,6 +15,12 @@ enum Store { S6(S6), G9(G9), I32(SimpleTermIndex<u32>), I16(SimpleTermIndex<u16>
 impl Store {
     fn kind(&self) -> &'static str { match self { Store::S6(_) => "SimpleTermIndex<SmallIdx<6>>", Store::G9(_) => "GenericFastGraph<SimpleTermIndex<SmallIdx<9>>>", Store::I32(_) => "SimpleTermIndex<u32>", Store::I16(_) => "SimpleTermIndex<u16>", Store::FG(_) => "FastGraph", Store::LG(_) => "LightGraph", Store::FD(_) => "FastDataset", Store::LD(_) => "LightDataset", Store::SFG(_) => "small::FastGraph" } }
     fn clone_it(&self) -> Store { match self { Store::S6(x) => Store::S6(x.clone()), Store::G9(x) => Store::G9(x.clone()), Store::I32(x) => Store::I32(x.clone()), Store::I16(x) => Store::I16(x.clone()), Store::FG(x) => Store::FG(x.clone()), Store::LG(x) => Store::LG(x.clone()), Store::FD(x) => Store::FD(x.clone()), Store::LD(x) => Store::LD(x.clone()), Store::SFG(x) => Store::SFG(x.clone()) } }
+    /// Clone::clone_from (a provided method of Clone that a type may override); false if the two stores are of different types
+    fn clone_from_it(&mut self, src: &Store) -> bool { match (self, src) {
+        (Store::S6(a), Store::S6(b)) => { a.clone_from(b); true } (Store::G9(a), Store::G9(b)) => { a.clone_from(b); true } (Store::I32(a), Store::I32(b)) => { a.clone_from(b); true } (Store::I16(a), Store::I16(b)) => { a.clone_from(b); true }
+        (Store::FG(a), Store::FG(b)) => { a.clone_from(b); true } (Store::LG(a), Store::LG(b)) => { a.clone_from(b); true } (Store::FD(a), Store::FD(b)) => { a.clone_from(b); true } (Store::LD(a), Store::LD(b)) => { a.clone_from(b); true } (Store::SFG(a), Store::SFG(b)) => { a.clone_from(b); true }
+        _ => false } }
+    fn shapes(&self) -> Option<String> { match self { Store::G9(x) => graph_shapes(x), Store::FG(x) => graph_shapes(x), Store::LG(x) => graph_shapes(x), Store::SFG(x) => graph_shapes(x), Store::FD(x) => dataset_shapes(x), Store::LD(x) => dataset_shapes(x), _ => None } }
     fn audit(&self) -> Vec<bool> { match self { Store::S6(x) => x.verif_audit(), Store::G9(x) => x.verif_term_index().verif_audit(), Store::I32(x) => x.verif_audit(), Store::I16(x) => x.verif_audit(), Store::FG(x) => x.verif_term_index().verif_audit(), Store::LG(x) => x.verif_term_index().verif_audit(), Store::FD(x) => x.verif_term_index().verif_audit(), Store::LD(x) => x.verif_term_index().verif_audit(), Store::SFG(x) => x.verif_term_index().verif_audit() } }
     fn len(&self) -> usize { match self { Store::S6(x) => x.len(), Store::G9(x) => x.verif_term_index().len(), Store::I32(x) => x.len(), Store::I16(x) => x.len(), Store::FG(x) => x.verif_term_index().len(), Store::LG(x) => x.verif_term_index().len(), Store::FD(x) => x.verif_term_index().len(), Store::LD(x) => x.verif_term_index().len(), Store::SFG(x) => x.verif_term_index().len() } }
     fn term_at(&self, i: usize) -> ST { match self { Store::S6(x) => x.get_term(SmallIdx(i as u8)).into_term(), Store::G9(x) => x.verif_term_index().get_term(SmallIdx(i as u8)).into_term(), Store::I32(x) => x.get_term(i as u32).into_term(), Store::I16(x) => x.get_term(i as u16).into_term(), Store::FG(x) => x.verif_term_index().get_term(i as u32).into_term(), Store::LG(x) => x.verif_term_index().get_term(i as u32).into_term(), Store::FD(x) => x.verif_term_index().get_term(i as u32).into_term(), Store::LD(x) => x.verif_term_index().get_term(i as u32).into_term(), Store::SFG(x) => x.verif_term_index().get_term(i as u16).into_term() } }
@@ -58,12 +65,93 @@ impl Store {
         Store::FD(x) => { x.remove(&ts[0], &ts[1], &ts[2], Some(&ts[3])).unwrap(); } Store::LD(x) => { x.remove(&ts[0], &ts[1], &ts[2], Some(&ts[3])).unwrap(); } _ => {}
     } }
 }
+enum TMx { K(ST), A }
+impl sophia_api::term::matcher::TermMatcher for TMx {
+    type Term = ST;
+    fn matches<T2: Term + ?Sized>(&self, t: &T2) -> bool { match self { TMx::K(k) => Term::eq(k, t.borrow_term()), TMx::A => true } }
+    fn constant(&self) -> Option<&ST> { if let TMx::K(k) = self { Some(k) } else { None } }
+}
+enum GMx { K(Option<ST>), A }
+impl sophia_api::term::matcher::GraphNameMatcher for GMx {
+    type Term = ST;
+    fn matches<T2: Term + ?Sized>(&self, g: GraphName<&T2>) -> bool { match self { GMx::K(k) => sophia_api::term::graph_name_eq(k.as_ref().map(|t| t.borrow_term()), g.map(|t| t.borrow_term())), GMx::A => true } }
+    fn constant(&self) -> Option<GraphName<&ST>> { if let GMx::K(k) = self { Some(k.as_ref()) } else { None } }
+}
+/// every pattern shape (which positions are constants) must return exactly the statements of the store that match it:
+/// a copy of a store that forgot one of its secondary indexes answers some shapes wrongly
+fn graph_shapes<G: Graph>(g: &G) -> Option<String> {
+    let all: Vec<[ST; 3]> = g.triples().map(|t| { let t = t.ok().unwrap(); [t.s().into_term(), t.p().into_term(), t.o().into_term()] }).collect();
+    for probe in all.iter().take(3) { for mask in 0..8u8 {
+        let m = |i: usize| if mask >> i & 1 == 1 { TMx::K(probe[i].clone()) } else { TMx::A };
+        let got = g.triples_matching(m(0), m(1), m(2)).count();
+        let want = all.iter().filter(|t| (0..3).all(|i| mask >> i & 1 == 0 || Term::eq(&t[i], probe[i].borrow_term()))).count();
+        if got != want { return Some(format!("pattern with constants at positions {mask:03b} (spo) of {probe:?} returns {got} triples, the store holds {want} matching ones")); }
+    } }
+    None
+}
+fn dataset_shapes<D: Dataset>(d: &D) -> Option<String> {
+    let all: Vec<([ST; 3], Option<ST>)> = d.quads().map(|q| { let q = q.ok().unwrap(); ([q.s().into_term(), q.p().into_term(), q.o().into_term()], q.g().map(|g| g.into_term())) }).collect();
+    for probe in all.iter().take(3) { for mask in 0..16u8 {
+        let m = |i: usize| if mask >> i & 1 == 1 { TMx::K(probe.0[i].clone()) } else { TMx::A };
+        let gm = if mask >> 3 & 1 == 1 { GMx::K(probe.1.clone()) } else { GMx::A };
+        let got = d.quads_matching(m(0), m(1), m(2), gm).count();
+        let want = all.iter().filter(|q| (0..3).all(|i| mask >> i & 1 == 0 || Term::eq(&q.0[i], probe.0[i].borrow_term())) && (mask >> 3 & 1 == 0 || sophia_api::term::graph_name_eq(q.1.as_ref().map(|t| t.borrow_term()), probe.1.as_ref().map(|t| t.borrow_term())))).count();
+        if got != want { return Some(format!("pattern with constants at positions {mask:04b} (gops, s lowest bit) of {probe:?} returns {got} quads, the store holds {want} matching ones")); }
+    } }
+    None
+}
+/// A user-defined term type that keeps its text INLINE and is its own BorrowTerm (Copy): every string it hands out
+/// borrows from the value itself, so a copy made on the stack must not be borrowed beyond its life.
+#[derive(Clone, Copy, Debug)]
+struct InlAtom { kind: u8, len: u8, buf: [u8; 40] }
+impl InlAtom { fn new(kind: u8, t: &str) -> Self { let mut buf = [0u8; 40]; buf[..t.len()].copy_from_slice(t.as_bytes()); InlAtom { kind, len: t.len() as u8, buf } } fn text(&self) -> &str { std::str::from_utf8(&self.buf[..self.len as usize]).unwrap() } }
+#[derive(Clone, Copy, Debug)]
+enum Inl { Atom(InlAtom), Triple([InlAtom; 3]) }
+impl Term for Inl {
+    type BorrowTerm<'x> = Inl;
+    fn kind(&self) -> sophia_api::term::TermKind { use sophia_api::term::TermKind::*; match self { Inl::Atom(a) => match a.kind { 0 => Iri, 1 => BlankNode, _ => Literal }, Inl::Triple(_) => Triple } }
+    fn borrow_term(&self) -> Inl { *self }
+    fn iri(&self) -> Option<sophia_api::term::IriRef<sophia_api::MownStr<'_>>> { match self { Inl::Atom(a) if a.kind == 0 => Some(sophia_api::term::IriRef::new_unchecked(sophia_api::MownStr::from_ref(a.text()))), _ => None } }
+    fn bnode_id(&self) -> Option<sophia_api::term::BnodeId<sophia_api::MownStr<'_>>> { match self { Inl::Atom(a) if a.kind == 1 => Some(sophia_api::term::BnodeId::new_unchecked(sophia_api::MownStr::from_ref(a.text()))), _ => None } }
+    fn lexical_form(&self) -> Option<sophia_api::MownStr<'_>> { match self { Inl::Atom(a) if a.kind == 2 => Some(sophia_api::MownStr::from_ref(a.text())), _ => None } }
+    fn datatype(&self) -> Option<sophia_api::term::IriRef<sophia_api::MownStr<'_>>> { match self { Inl::Atom(a) if a.kind == 2 => Some(sophia_api::term::IriRef::new_unchecked(sophia_api::MownStr::from_ref("http://www.w3.org/2001/XMLSchema#string"))), _ => None } }
+    fn language_tag(&self) -> Option<sophia_api::term::LanguageTag<sophia_api::MownStr<'_>>> { None }
+    fn triple(&self) -> Option<[Inl; 3]> { match self { Inl::Triple(a) => Some([Inl::Atom(a[0]), Inl::Atom(a[1]), Inl::Atom(a[2])]), _ => None } }
+    fn to_triple(self) -> Option<[Inl; 3]> { self.triple() }
+}
+/// look-ups, removals and insertions through the stores with such terms (quoted triples included) must behave as with
+/// SimpleTerms; with a conversion that keeps borrowing from a dead temporary they read released stack memory
+fn inline_term_scenarios() -> Vec<String> {
+    let mut bad = vec![];
+    let qt_s = triple(iri("http://e/a"), iri("http://e/p"), lit_dt("inline text", &format!("{XSD}string")));
+    let qt_i = Inl::Triple([InlAtom::new(0, "http://e/a"), InlAtom::new(0, "http://e/p"), InlAtom::new(2, "inline text")]);
+    let (p_i, o_i, b_i) = (Inl::Atom(InlAtom::new(0, "http://e/q")), Inl::Atom(InlAtom::new(2, "o")), Inl::Atom(InlAtom::new(1, "b1")));
+    fn go<G: MutableGraph + Graph + Default>(name: &str, qt_s: &ST, qt_i: Inl, p_i: Inl, o_i: Inl, b_i: Inl, bad: &mut Vec<String>) where G::MutationError: std::fmt::Debug {
+        let mut g = G::default();
+        g.insert(qt_s.clone(), iri("http://e/q"), lit_dt("o", &format!("{XSD}string"))).unwrap();
+        g.insert(bnode("b1"), iri("http://e/q"), qt_s.clone()).unwrap();
+        for _ in 0..3 { let filler: Vec<u8> = vec![0xAA; 256]; std::hint::black_box(&filler); } // churn the stack / heap a little
+        let n1 = g.triples_matching([qt_i], sophia_api::term::matcher::Any, sophia_api::term::matcher::Any).count();
+        let n2 = g.triples_matching(sophia_api::term::matcher::Any, [p_i], [qt_i]).count();
+        let c = g.contains(qt_i, p_i, o_i).unwrap_or(false);
+        if n1 != 1 || n2 != 1 || !c { bad.push(format!("{name}: with an inline, self-borrowing term type the quoted triple << a p \"inline text\" >> is found {n1} time(s) as subject, {n2} time(s) as object, contains = {c}; expected 1, 1, true")); }
+        let ins = g.insert(qt_i, p_i, o_i).map_err(|e| format!("{e:?}"));
+        if ins != Ok(false) { bad.push(format!("{name}: inserting the statement again through inline terms returned {ins:?}, expected Ok(false) (already there)")); }
+        let rem = g.remove(b_i, p_i, qt_i).map_err(|e| format!("{e:?}"));
+        if rem != Ok(true) || g.triples().count() != 1 { bad.push(format!("{name}: removing a statement through inline terms returned {rem:?} and left {} statement(s), expected Ok(true) and 1", g.triples().count())); }
+    }
+    go::<FastGraph>("FastGraph", &qt_s, qt_i, p_i, o_i, b_i, &mut bad);
+    go::<LightGraph>("LightGraph", &qt_s, qt_i, p_i, o_i, b_i, &mut bad);
+    go::<sophia_inmem::graph::small::FastGraph>("small::FastGraph", &qt_s, qt_i, p_i, o_i, b_i, &mut bad);
+    go::<std::collections::HashSet<[ST; 3]>>("HashSet<[SimpleTerm;3]>", &qt_s, qt_i, p_i, o_i, b_i, &mut bad);
+    bad
+}
 fn new_store(k: usize) -> Store { match k { 7 => Store::S6(Default::default()), 8 => Store::G9(Default::default()), 0 => Store::I32(Default::default()), 1 => Store::I16(Default::default()), 2 => Store::FG(Default::default()), 3 => Store::LG(Default::default()), 4 => Store::FD(Default::default()), 5 => Store::LD(Default::default()), _ => Store::SFG(Default::default()) } }
 
 fn nstr(t: &ST) -> usize { use sophia_api::term::SimpleTerm::*; match t { Iri(_) | BlankNode(_) | Variable(_) => 1, LiteralDatatype(..) | LiteralLanguage(..) => 2, Triple(tr) => tr.iter().map(nstr).sum() } }
 
 #[derive(Debug, Clone)]
-enum Op { New(usize, usize), Insert(usize, Vec<u64>), Bulk(usize, u64, usize), Remove(usize, Vec<u64>), Clone(usize, usize), Drop(usize), Swap(usize, usize) }
+enum Op { New(usize, usize), Insert(usize, Vec<u64>), Bulk(usize, u64, usize), Remove(usize, Vec<u64>), Clone(usize, usize), Drop(usize), Swap(usize, usize), CloneFrom(usize, usize) }
 
 thread_local! { static QUIET: std::cell::Cell<bool> = std::cell::Cell::new(false); }
 fn main() {
@@ -93,7 +181,7 @@ non-trivial = at least one clone whose source is later dropped or mutated while 
         for _ in 0..nops {
             let live: Vec<usize> = (0..5).filter(|i| slots[*i].is_some()).collect();
             let free: Vec<usize> = (0..5).filter(|i| slots[*i].is_none()).collect();
-            let choice = r.below(12);
+            let choice = r.below(13);
             let op = if live.is_empty() || (choice == 0 && !free.is_empty()) { Op::New(*r.pick(&free), r.below(9)) }
                 else { let s = *r.pick(&live); match choice {
                     1..=4 => Op::Insert(s, (0..4).map(|_| if r.chance(1, 5) { 900 + r.below(4) as u64 } else { 1 + r.below(16) as u64 }).collect()),
@@ -102,6 +190,7 @@ non-trivial = at least one clone whose source is later dropped or mutated while 
                     7..=8 if !free.is_empty() => Op::Clone(s, *r.pick(&free)),
                     9 => Op::Drop(s),
                     10 if live.len() >= 2 => Op::Swap(s, *r.pick(&live)),
+                    11 if live.len() >= 2 => { let d = *r.pick(&live); if d != s && std::mem::discriminant(slots[s].as_ref().unwrap()) == std::mem::discriminant(slots[d].as_ref().unwrap()) { Op::CloneFrom(s, d) } else if !free.is_empty() { Op::Clone(s, *r.pick(&free)) } else { Op::Drop(s) } }
                     _ => Op::Insert(s, (0..4).map(|_| 1 + r.below(16) as u64).collect()),
                 } };
             match &op {
@@ -121,6 +210,11 @@ non-trivial = at least one clone whose source is later dropped or mutated while 
                 }
                 Op::Remove(s, ids) => { let ts: Vec<ST> = ids.iter().map(|i| term(*i, &mut r)).collect(); slots[*s].as_mut().unwrap().remove(&ts); }
                 Op::Clone(s, d) => { let c = slots[*s].as_ref().unwrap().clone_it(); slots[*d] = Some(c); shadow[*d] = shadow[*s].clone(); cloned_from.push((*s, *d)); coq_ops.push(format!("Clone {s} {d}")); }
+                Op::CloneFrom(s, d) => {
+                    // for the model: the target is dropped and replaced by a clone of the source
+                    let src = slots[*s].take().unwrap(); let ok = slots[*d].as_mut().unwrap().clone_from_it(&src); slots[*s] = Some(src);
+                    if ok { shadow[*d] = shadow[*s].clone(); cloned_from.push((*s, *d)); coq_ops.push(format!("Drop {d}")); coq_ops.push(format!("Clone {s} {d}")); }
+                }
                 Op::Drop(s) => { let st = slots[*s].take(); drop(st); shadow[*s].clear(); coq_ops.push(format!("Drop {s}"));
                     if cloned_from.iter().any(|(src, dst)| (src == s && slots[*dst].as_ref().is_some_and(|x| x.len() > 0)) || (dst == s && slots[*src].as_ref().is_some_and(|x| x.len() > 0))) { interesting = true; } }
                 Op::Swap(x, y) => { if x != y { slots.swap(*x, *y); shadow.swap(*x, *y); for c in cloned_from.iter_mut() { for e in [&mut c.0, &mut c.1] { if *e == *x { *e = *y } else if *e == *y { *e = *x } } } coq_ops.push(format!("Swap {x} {y}")); } }
@@ -141,6 +235,9 @@ non-trivial = at least one clone whose source is later dropped or mutated while 
                         if let Some(k) = keys.iter().filter(|k| k.1 > 0).find(|k| keys2.iter().any(|m| m.1 > 0 && k.0 < m.0 + m.1 && m.0 < k.0 + k.1)) { failure = Some(format!("after {:?}: stores #{i} ({kind}) and #{j} share storage: a {}-byte key string at {:#x} overlaps a key string of the other store", ops, k.1, k.0)); break 'outer; }
                     } }
                 } }
+            }
+            if failure.is_none() && matches!(ops.last(), Some(Op::Clone(..)) | Some(Op::CloneFrom(..)) | Some(Op::Insert(..)) | Some(Op::Remove(..))) {
+                for (i, s) in slots.iter().enumerate() { if let Some(s) = s { if cloned_from.iter().any(|(a, b)| *a == i || *b == i) { if let Some(why) = s.shapes() { failure = Some(format!("after {:?}: store #{i} ({}), a clone or the source of a clone: {why}", ops, s.kind())); break; } } } }
             }
             // and every live store still holds exactly the terms it interned, in order (a clone: those of its
             // original at the time of cloning plus its own later ones)
@@ -168,6 +265,8 @@ non-trivial = at least one clone whose source is later dropped or mutated while 
         sum.evaluations += 1;
         cases.push((idx, format!("history_ok {} {}", coq_list(coq_ops.clone()), coq_list(obs))));
     }
+    for b in inline_term_scenarios() { sum.oracle_failures.push(("inline-terms".into(), b)); }
+    sum.evaluations += 4; sum.bump("scenario:inline self-borrowing term type");
     if a.only.is_none() {
         sum.shards = write_shards(&a.out, "From Sophia.C10 Require Import Model.", &cases, a.shards);
         std::fs::write(format!("{}/summary.json", a.out), sum.to_json()).unwrap();
